@@ -11422,6 +11422,26 @@ class TensorDictBase(MutableMapping):
         for key, tensor in self.items():
             if (
                 _is_tensor_collection(type(tensor))
+                and not _pass_through(tensor)
+                and (
+                    len(tensor.batch_size) < batch_dims
+                    or (
+                        tensor.batch_size[:batch_dims] != new_size and tensor.is_empty()
+                    )
+                )
+            ):
+                # this nested tensordict will be assigned a new batch size too: a lazy
+                # representation cannot follow, which must be noticed before anything is modified
+                inner = tensor._tensordict if _is_tensorclass(type(tensor)) else tensor
+                if inner._lazy:
+                    raise RuntimeError(
+                        f"the batch size of the nested {type(tensor).__name__} {key} would have to "
+                        f"change with the batch-size {new_size}, but modifying the batch size of a "
+                        "lazy representation of a tensordict is not permitted. Consider "
+                        "instantiating it first by calling `to_tensordict()`."
+                    )
+            if (
+                _is_tensor_collection(type(tensor))
                 and len(tensor.batch_size) < batch_dims
             ):
                 # this nested tensordict will be given the new batch size too:
